@@ -184,6 +184,7 @@ public:
     }
     void destroyTree() override { tree.reset(); tv = TreeView(); }
     void makeAlgo() override {
+        g_ctx->topMult.clear(); g_ctx->topLocal.clear();
         // four ways to build an executor: (configuration | configuration + kernel) x (explicit upper level | default)
         if constexpr (Cfg::kernelCtorOnly) {
             PK proto = Cfg::template make<PK>(*conf);
